@@ -658,6 +658,35 @@ func (s *scope) interpretOps(obj pyObject, ops []OpExpression) pyObject {
 	})
 }
 
+// pyEqual implements ==. Lists and dicts are compared by their contents whether or not they
+// are frozen (a frozen list is a different Go type wrapping the same kind of value).
+func pyEqual(a, b pyObject) bool {
+	if l, ok := asList(a); ok {
+		l2, ok := asList(b)
+		if !ok || len(l) != len(l2) {
+			return false
+		}
+		for i := range l {
+			if !pyEqual(l[i], l2[i]) {
+				return false
+			}
+		}
+		return true
+	} else if d, ok := asDict(a); ok {
+		d2, ok := asDict(b)
+		if !ok || len(d) != len(d2) {
+			return false
+		}
+		for k, v := range d {
+			if v2, present := d2[k]; !present || !pyEqual(v, v2) {
+				return false
+			}
+		}
+		return true
+	}
+	return reflect.DeepEqual(a, b)
+}
+
 func (s *scope) interpretOp(obj pyObject, op OpExpression) pyObject {
 	switch op.Op {
 	case And, Or:
@@ -669,9 +698,9 @@ func (s *scope) interpretOp(obj pyObject, op OpExpression) pyObject {
 	case Not:
 		return s.negate(obj)
 	case Equal:
-		return newPyBool(reflect.DeepEqual(obj, s.interpretExpression(op.Expr)))
+		return newPyBool(pyEqual(obj, s.interpretExpression(op.Expr)))
 	case NotEqual:
-		return newPyBool(!reflect.DeepEqual(obj, s.interpretExpression(op.Expr)))
+		return newPyBool(!pyEqual(obj, s.interpretExpression(op.Expr)))
 	case Is:
 		return s.interpretIs(obj, op)
 	case IsNot:
